@@ -287,6 +287,41 @@ theorem BSR_D16_spec (op d : BitVec 16) (st s1 st' : Cpu) (c : BitVec 8) (pc0 : 
   simp only [Spec.low24, Spec.sx16] at hw ⊢
   bv_decide
 
+/-- JMP @@aa:8: PC := low 24 bits of the long at H'0000aa -/
+theorem JMP_MEMIND_spec (op : BitVec 16) (st st' : Cpu) (c : BitVec 8) (pc0 : BitVec 32) (len : Nat)
+    (h : jmpIndirect op st = .ok c st') :
+    st' = specCpu .JMP_MEMIND (.jmp (.memind ((op.extractLsb' 0 8).setWidth 8))) pc0 len st := by
+  have hm : (op &&& 0x00ff).setWidth 32 = ((op &&& 0x00ff).setWidth 32 : BitVec 32) &&& ADDRESS_MASK := by
+    unfold ADDRESS_MASK; bv_decide
+  simp only [jmpIndirect, bind_ok] at h
+  rw [hm] at h
+  split at h
+  case h_2 => simp at h
+  case h_3 => simp at h
+  rename_i t s1 hrd
+  obtain ⟨es, ev⟩ := readAbs24L_peek _ _ _ _ hrd
+  subst es
+  simp only [modify_ok, pure_ok] at h
+  split at h
+  case h_2 => simp at h
+  case h_3 => simp at h
+  rename_i c1 sa hc1; have := costI_state hc1; subst this
+  split at h
+  case h_2 => simp at h
+  case h_3 => simp at h
+  rename_i c2 sb hc2; have := calcStateWithAddr_state hc2; subst this
+  split at h
+  case h_2 => simp at h
+  case h_3 => simp at h
+  rename_i c3 sc hc3; have := calcState_state hc3; subst this
+  injection h with _ h; subst h
+  simp only [specCpu, Spec.exec, Spec.low24]
+  have e : (BitVec.setWidth 24 (BitVec.setWidth 8 (BitVec.extractLsb' 0 8 op))) = BitVec.setWidth 24 (BitVec.setWidth 32 (op &&& 255#16)) := by
+    bv_decide
+  rw [e]
+  subst ev
+  rfl
+
 -- non-vacuity: a frame in on-chip RAM is not a special-function register
 example : Spec.isSfr 0xffff00 = false ∧ Spec.isSfr 0xffff03 = false := by decide
 
